@@ -1,6 +1,6 @@
 (* C16 — the sample-to-individual mapping: the GT columns are regrouped, in order, into
    consecutive runs; header facts. *)
-From Coq Require Import List ZArith Bool Lia.
+From Coq Require Import List ZArith Bool Lia Sorting.Sorted.
 From TskVerif Require Import Base.Common Gen.Generated C16.Model C16.Spec C16.TemplateProofs.
 Import ListNotations.
 Open Scope Z_scope.
@@ -223,6 +223,53 @@ Proof.
   induction rounded as [|p t IH]; intros last H; [reflexivity|]. cbn in *. destruct H as [H1 H2].
   destruct (p <=? last) eqn:E; [apply Z.leb_le in E; lia|]. rewrite IH by assumption. reflexivity.
 Qed.
+
+(* The ##contig length covers every written POS whenever the transformed positions are
+   non-decreasing (site positions increase; numpy.round, the legacy transform and every monotone
+   callable keep the order), and it is at least 1 and at least the transformed sequence length. *)
+Lemma sorted_app_last : forall l x, StronglySorted Z.le (l ++ [x]) -> Forall (fun p => p <= x) (l ++ [x]).
+Proof.
+  induction l as [|a l IH]; intros x H; cbn in *.
+  - constructor; [lia|constructor].
+  - inversion H as [|? ? Hs Hall]; subst. constructor.
+    + eapply Forall_forall in Hall; [exact Hall|]. apply in_or_app; right; left; reflexivity.
+    + apply IH. exact Hs.
+Qed.
+
+Theorem contig_covers_positions : forall tl pos, StronglySorted Z.le pos ->
+  Forall (fun p => p <= contig_length tl pos) pos
+  /\ 1 <= contig_length tl pos /\ tl <= contig_length tl pos.
+Proof.
+  intros tl pos H. unfold contig_length. destruct pos as [|x l] using rev_ind.
+  - cbn. repeat split; [constructor|lia|lia].
+  - rewrite rev_app_distr. cbn [rev app]. repeat split; try lia.
+    eapply Forall_impl; [|apply sorted_app_last; exact H]. intros p Hp. cbv beta in Hp. lia.
+Qed.
+
+(* the legacy transform produces such positions (strictly increasing, above 0) *)
+Lemma increasing_from_sorted : forall l last, increasing_from last l -> StronglySorted Z.le l /\ Forall (fun p => last < p) l.
+Proof.
+  induction l as [|p t IH]; intros last H; [split; constructor|].
+  cbn in H. destruct H as [H1 H2]. destruct (IH p H2) as [Hs Hf]. split.
+  - constructor; [exact Hs|]. eapply Forall_impl; [|exact Hf]. intros q Hq. cbv beta in Hq. lia.
+  - constructor; [exact H1|]. eapply Forall_impl; [|exact Hf]. intros q Hq. cbv beta in Hq. lia.
+Qed.
+
+Theorem legacy_contig_covers : forall rounded tl,
+  let pos := legacy_transform 0 rounded in
+  Forall (fun p => 1 <= p <= contig_length tl pos) pos.
+Proof.
+  intros rounded tl pos.
+  destruct (increasing_from_sorted pos 0 (legacy_increasing rounded 0)) as [Hs Hf].
+  destruct (contig_covers_positions tl pos Hs) as [Hc _].
+  apply Forall_forall. intros p Hp. split.
+  - eapply Forall_forall in Hf; eauto. cbv beta in Hf. lia.
+  - eapply Forall_forall in Hc; eauto.
+Qed.
+
+Example contig_example : contig_length 10 [0; 3; 12] = 12 /\ contig_length 0 [] = 1
+  /\ legacy_transform 0 [0; 0; 9] = [1; 2; 9] /\ contig_length 5 (legacy_transform 0 [0; 0; 9]) = 9.
+Proof. repeat split. Qed.
 
 Example legacy_example : legacy_transform 0 [0; 0; 1; 5; 5; 4] = [1; 2; 3; 5; 6; 7].
 Proof. reflexivity. Qed.
